@@ -80,9 +80,6 @@ abbrev cppPullsG := cppPullsR FV.Generated.cppRecheck
 
 /-! ## 1. the two bases deliver the same tokens -/
 
-theorem inv_init (evs : List Ev) (h : loudEnd evs 0 = true) : Inv evs [] 0 :=
-  ⟨fun _ => by simp, rfl, h⟩
-
 /-- **both bases deliver the intended stream** — the tokens the events stand for, the closing
     NEWLINE DEDENT* if blocks are open, then EOF for ever — for every event stream that does not end
     with a silently skipped newline, and for every number of `nextToken()` calls -/
@@ -167,23 +164,6 @@ theorem C14_cpp_as_found_misses_spec_on_witness :
 
 /-! ## 2. INDENT and DEDENT are balanced at EOF -/
 
-theorem deliver_ge (l : List Tok) : ∀ n, l.length ≤ n → deliver l n = l ++ List.replicate (n - l.length) .eof := by
-  induction l with
-  | nil =>
-    intro n _
-    induction n with
-    | zero => rfl
-    | succ n ih => simp [deliver, ih, List.replicate_succ]
-  | cons a r ih =>
-    intro n hn
-    cases n with
-    | zero => simp at hn
-    | succ n =>
-      simp only [List.length_cons] at hn
-      have := ih n (by omega)
-      simp only [deliver, List.headD_cons, List.tail_cons, this, List.length_cons]
-      simp
-
 /-- once the whole stream has been delivered, both bases have emitted as many DEDENT as INDENT tokens
     (every block that was opened is closed before EOF) -/
 theorem C14_indents_balanced (evs : List Ev) (h : loudEnd evs 0 = true) (n : Nat)
@@ -193,6 +173,17 @@ theorem C14_indents_balanced (evs : List Ev) (h : loudEnd evs 0 = true) (n : Nat
   have hs := C14_bases_deliver_spec evs h n
   have hb := spec_balanced evs [] 0
   rw [hs.1, hs.2, deliver_ge _ n hn]
+  simp only [countTok_append, countTok_replicate_ne _ _ _ (show (Tok.eof == Tok.indent) = false from rfl),
+    countTok_replicate_ne _ _ _ (show (Tok.eof == Tok.dedent) = false from rfl)]
+  simp at hb ⊢
+  exact hb
+
+/-- the same on EVERY stream for the Python base and for the C++ base with the second end-of-input check -/
+theorem C14_indents_balanced_every_stream (evs : List Ev) (n : Nat) (hn : (spec evs [] 0).length ≤ n) :
+    countTok .indent (pyPulls n (pyInit evs)) = countTok .dedent (pyPulls n (pyInit evs)) ∧
+    countTok .indent (cppPullsR true n (cppInit evs)) = countTok .dedent (cppPullsR true n (cppInit evs)) := by
+  have hb := spec_balanced evs [] 0
+  rw [← C14_fixed_bases_equal, C14_python_base_delivers_spec, deliver_ge _ n hn]
   simp only [countTok_append, countTok_replicate_ne _ _ _ (show (Tok.eof == Tok.indent) = false from rfl),
     countTok_replicate_ne _ _ _ (show (Tok.eof == Tok.dedent) = false from rfl)]
   simp at hb ⊢
